@@ -125,32 +125,28 @@ let rec raw_entries (d : n list) : (((n list * n) * n list) option) list =
      | _ -> [None])
   | _ -> [None]
 
-let oid_of_type = function
-  | "C" -> "0603550406" | "ST" -> "0603550408" | "L" -> "0603550407" | "O" -> "060355040a" | "OU" -> "060355040b"
-  | "CN" -> "0603550403" | "DC" -> "060a0992268993f22c640119" | _ -> failwith "type"
-let maxlen_of = function "C" -> 2 | "ST" | "L" -> 128 | "DC" -> 100000 | _ -> 64
-
+(* names: the Coq model Pki/X509Codec.v (name_build / name_dec / name_get_value), see C15_name_roundtrip *)
+let attr_type_of = function
+  | "C" -> AT_country | "ST" -> AT_state | "L" -> AT_locality | "O" -> AT_org | "OU" -> AT_org_unit | "CN" -> AT_common_name
+  | "DC" -> AT_domain_component | _ -> failwith "type"
 let name_line spec =
-  let attrs = List.map (fun a -> match split ':' a with [ty; tg; v] -> (ty, int_of_string tg, bx v) | _ -> failwith "attr") (split ',' spec) in
-  let ok (ty, tg, v) =
-    let l = List.length v in
-    let nonul = not (List.mem N0 v) in
-    match ty with
-    | "C" -> l = 2 && nonul
-    | "DC" -> false   (* x509_name_add_domain_component always fails: x509_attr_type_and_value_check has no entry for it *)
-    | _ -> l >= 1 && l <= maxlen_of ty && (match tg with 12 | 19 | 20 | 28 -> nonul | 30 -> l mod 2 = 0 | _ -> false) in
-  if not (List.for_all ok attrs) then "ERR" else begin
-    let enc (ty, tg, v) =
-      let tg = match ty with "C" -> 19 | "DC" -> 22 | _ -> tg in
-      tlv (ni 49) (tlv (ni 48) (bx (oid_of_type ty) @ tlv (ni tg) v)) in
-    let der = List.concat (List.map enc attrs) in
-    let order = ["C"; "ST"; "L"; "O"; "OU"; "CN"; "DC"] in
-    let shown = List.filter_map (fun ty ->
-      match List.find_opt (fun (t, _, _) -> t = ty) attrs with
-      | Some (_, tg, v) -> let tg = (match ty with "C" -> 19 | "DC" -> 22 | _ -> tg) in Some (Printf.sprintf " %s=%d:%s" ty tg (hx v))
-      | None -> None) order in
-    "der=" ^ hx der ^ " check=1" ^ String.concat "" shown
-  end
+  let attrs = List.map (fun a -> match split ':' a with
+    | [ty; tg; v] -> let tg = (match ty with "C" -> 19 | "DC" -> 22 | _ -> int_of_string tg) in ((attr_type_of ty, ni tg), bx v)
+    | _ -> failwith "attr") (split ',' spec) in
+  match name_build attrs with
+  | None -> "ERR"
+  | Some der ->
+    (match name_dec (nat_of_int (List.length attrs + 1)) der with
+     | None -> "MODEL-name-does-not-parse"
+     | Some l ->
+       let order = ["C"; "ST"; "L"; "O"; "OU"; "CN"; "DC"] in
+       let shown = List.filter_map (fun ty ->
+         if List.exists (fun ((t, _), _) -> t = attr_type_of ty) attrs then
+           (match name_get_value l (attr_type_of ty) with
+            | Some (tg, v) -> Some (Printf.sprintf " %s=%d:%s" ty (int_of_n tg) (hx v))
+            | None -> Some (Printf.sprintf " %s=ERR" ty))
+         else None) order in
+       "der=" ^ hx der ^ " check=1" ^ String.concat "" shown)
 
 let ext_line ws = match ws with
   | ["ku"; c; bits] -> let b = int_of_string bits in if b <= 0 then "ERR build" else Printf.sprintf "critical=%s bits=%d" c b
@@ -229,6 +225,51 @@ let entryexts_line reason date issuer =
   let e3 = if iss = [] then [] else ext_emit (tlv (ni 6) (bx "551d1d")) (zi 1) (tlv (ni 48) iss) in
   Printf.sprintf "der=%s reason=%d date=%s issuer=%s" (hx (tlv (ni 48) (e1 @ e2 @ e3))) r date (hx iss)
 
+(* wave 5 *)
+let certsidx_line n bad idx =
+  let l = List.init n (fun i -> if i = bad then None else Some (i + 1)) in
+  let show = function FHit a -> string_of_int a | FNone -> "none" | FErr -> "ERR" in
+  Printf.sprintf "idx=%s last=%s count=%d" (if idx < 0 then "ERR" else show (certs_by_index l (nat_of_int idx))) (show (certs_last l FNone)) n
+let crl_ext_kind_of s = match List.hd (split '.' s) with
+  | "delta" | "idp" -> (CE_delta_or_idp, zi 1) | "ian" -> (CE_issuer_alt_name, zi (-1)) | "aki" | "daki" -> (CE_aki, zi (-1))
+  | "aia" -> (CE_other, zi 0) | _ -> (CE_other, zi (-1))
+let crlchk_line version thisu nextu now exts =
+  let v = int_of_string version in
+  let es = if exts = "-" then [] else split ',' exts in
+  if not (time_ok thisu) || (nextu <> "-1" && not (time_ok nextu)) || v < -1 then "ERR issue"
+  else if (v >= 0 && v <> 1) || (es <> [] && v <> 1) then "ERR"                       (* x509_crl_get_details refuses it *)
+  else if crl_check true (zi v) (bigz_of_hex (Printf.sprintf "%Lx" (Int64.of_string thisu)))
+      (if nextu = "-1" then None else Some (bigz_of_hex (Printf.sprintf "%Lx" (Int64.of_string nextu))))
+      (let n = Int64.of_string now in if n < 0L then bigz_of_hex ("-" ^ Printf.sprintf "%Lx" (Int64.neg n)) else bigz_of_hex (Printf.sprintf "%Lx" n))
+      (List.map crl_ext_kind_of es) then "1" else "ERR"
+let revokeex_line serial date reason inv issuer via =
+  let r = int_of_string reason and iss = bx issuer in
+  let sn = if via = "1" then integer_value (integer_content (bx serial)) else bx serial in
+  if sn = [] || not (time_ok date) || (inv <> "-1" && not (time_ok inv)) then "ERR build" else
+  let e1 = if r < 0 then [] else ext_emit (tlv (ni 6) (bx "551d15")) (zi (-1)) [ni 10; ni 1; ni r] in
+  let e2 = if inv = "-1" then [] else ext_emit (tlv (ni 6) (bx "551d18")) (zi (-1)) (let (t, c) = gen_time_value (n_of_i64 inv) in tlv t c) in
+  let e3 = if iss = [] then [] else ext_emit (tlv (ni 6) (bx "551d1d")) (zi 1) (tlv (ni 48) iss) in
+  let exts = e1 @ e2 @ e3 in
+  let der = tlv (ni 48) (tlv (ni 2) (integer_content sn) @ (let (t, c) = gen_time_value (n_of_i64 date) in tlv t c) @ (if exts = [] then [] else tlv (ni 48) exts)) in
+  "der=" ^ hx der ^ (if exts = [] then " parse=ERR" else
+    Printf.sprintf " serial=%s date=%s reason=%d invalid=%s issuer=%s" (hx (integer_value (integer_content sn))) date r inv (hx iss))
+
+let gnames_line fix spec want =
+  let items = List.map (fun t -> match split ':' t with [c; v] -> (int_of_string c, bx v) | _ -> failwith "gn") (split ',' spec) in
+  let rec build acc = function
+    | [] -> Some acc
+    | (c, v) :: r -> (match general_name_enc fix (ni c) v with Some e -> build (acc @ e) r | None -> None) in
+  match build [] items with
+  | None -> "ERR build"
+  | Some der ->
+    let rec read inp acc = if inp = [] then String.concat ";" (List.rev acc) else
+      match general_name_dec inp with
+      | Some ((ch, c), rest) -> read rest (Printf.sprintf "%d:%s" (int_of_n ch) (hx c) :: acc)
+      | None -> String.concat ";" (List.rev ("ERR" :: acc)) in
+    let first = (match general_names_find (nat_of_int (List.length items + 1)) der (ni want) with
+      | Some (Some c) -> Printf.sprintf "%d:%s" want (hx c) | Some None -> "none" | None -> "ERR") in
+    Printf.sprintf "der=%s read=%s first=%s" (hx der) (read der []) first
+
 let handle ws = match ws with
   | ["keys"] -> String.concat " " (Array.to_list (Array.map hx keys))
   | "cert" :: r -> cert_line r
@@ -236,6 +277,11 @@ let handle ws = match ws with
   | ["extlen"; kind; crit; hex] -> extlen_line kind crit hex
   | ["sigalg"; kind; inner; outer; mode] -> sigalg_line kind inner outer mode
   | ["threads"; _; _] -> "mismatches=0"
+  | ["certsidx"; n; bad; idx] -> certsidx_line (int_of_string n) (int_of_string bad) (int_of_string idx)
+  | ["crlchk"; v; t; nx; now; exts] -> crlchk_line v t nx now exts
+  | ["revokeex"; s; dt; r; inv; iss; via] -> revokeex_line s dt r inv iss via
+  | ["gnames"; spec; want] -> gnames_line true spec (int_of_string want)
+  | ["wrap"; _] -> "to_der=1 from_der=1 same=1 rest=0 truncated=0"
   | ["reusebuf"; order] ->
     "len-equal=1" ^ String.concat "" (List.map (fun ch ->
       let d = if ch = '2' then 2 else 1 in
